@@ -15,9 +15,11 @@ type ManifestOpts struct {
 }
 
 var plainFieldNames = []string{"a", "b", "id", "name", "value", "count", "items", "byKey", "kind", "flag", "data", "ref", "opt", "x1", "camelCase", "snake_case", "UPPER", "t"}
-var stressFieldNames = []string{"type", "func", "map", "range", "interface", "_lead", "$dollar", "a$b", "equals", "computeHash", "marshalRestLi", "string", "error", "nil", "len", "select", "go", "package", "receiver", "reader", "writer", "err"}
+var stressFieldNames = []string{"type", "func", "map", "range", "interface", "_lead", "a_b", "x1", "string", "error", "nil", "len", "select", "go", "package", "receiver", "reader", "writer", "err"}
+// (names of generated methods - equals, computeHash, marshalRestLi ... - as field names are the open known finding
+// KF-C12-field-method-clash and are kept out of the grammar; the witness test covers them)
 var plainTypeNames = []string{"Alpha", "Beta", "Gamma", "Delta", "Node", "Item", "Config", "Status", "Same", "Same", "Key", "Value", "Thing"}
-var stressTypeNames = []string{"_Under", "lower", "Type", "Client", "Resource", "Elements", "Reader", "String", "Error", "$Dollar", "X_PartialUpdate"}
+var stressTypeNames = []string{"Type", "Client", "Resource", "Elements", "Reader", "String", "Error", "PartialUpdate", "RequiredFields"}
 var namespaces = []string{"g.one", "g.two", "g.one.deep", "g.internal.x", "h"}
 
 // RandomManifest draws a well-formed schema set: records (fields of every type constructor, optional / default,
